@@ -1936,21 +1936,31 @@ func ruleFLOCKACQUIRE(p *Program, rep *Report) {
 	okExits := 0
 	for _, e := range exits {
 		st := e.st.prop.(*flockProp)
-		held := false
+		// held: some acquisition is known to have succeeded; notHeld: every acquisition is known to have failed
+		// (or there was none).  Facts lost across a helper's joined results leave both false: not decided.
+		held, notHeld := false, true
 		for _, a := range st.acq {
 			switch a.kind {
 			case "lock":
-				if e.st.nilF[a.sym] == 1 {
+				switch e.st.nilF[a.sym] {
+				case 1:
 					held = true
+					notHeld = false
+				case 0:
+					notHeld = false
 				}
 			case "try":
-				if b, known := e.st.boolF[a.sym]; known && b {
+				b, known := e.st.boolF[a.sym]
+				if known && b {
 					held = true
+				}
+				if !known || b {
+					notHeld = false
 				}
 			}
 		}
 		if debugVerbose {
-			fmt.Printf("flock exit err=%d held=%v stored=%v acq=%v nilF=%v boolF=%v ret=%s\n", errOfExit(fn, e), held, st.stored, st.acq, e.st.nilF, e.st.boolF, e.ret.vstr())
+			fmt.Printf("flock exit err=%d held=%v notHeld=%v stored=%v acq=%v nilF=%v boolF=%v ret=%s\n", errOfExit(fn, e), held, notHeld, st.stored, st.acq, e.st.nilF, e.st.boolF, e.ret.vstr())
 		}
 		switch errOfExit(fn, e) {
 		case 0, 2: // 0: the nil-ness of the returned error value is not known (a package-level error variable)
@@ -1959,7 +1969,7 @@ func ruleFLOCKACQUIRE(p *Program, rep *Report) {
 			}
 		case 1:
 			okExits++
-			if !held || !st.stored {
+			if notHeld || !st.stored {
 				problems = append(problems, "doLock can return success without holding the OS lock / without storing the lock object in the File")
 			}
 		}
@@ -1985,8 +1995,10 @@ func ruleFLOCKACQUIRE(p *Program, rep *Report) {
 // data end marker), the relation of the two markers has to be taken into account first: the data end marker
 // raised to the meta end marker (as the unbounded branch of tryGrow does) or a dominating comparison of the
 // two.  Otherwise live overwrite / mapping / free-list pages are handed out as data pages.
+const badMsgDataEnd = "pages are allocated from the unused end of the data area starting at the data end marker without regard to the meta end marker: when the overflow area is in use (meta end marker beyond the data end marker) and the size limit no longer separates the two — the maximum size was raised on open — live overwrite, mapping and free-list pages in [data end, meta end) are handed out as data pages and overwritten"
+
 func ruleDATAENDSKIPSOVERFLOW(p *Program, rep *Report) {
-	rep.Rule("DATA-END-SKIPS-OVERFLOW", 2, "every allocation from the unused end of the data area (allocFromArea on the data end marker) is preceded on every path by a raise of the data end marker to the meta end marker, or dominated by a comparison of the two markers: the pages between them belong to the overflow area in use")
+	rep.Rule("DATA-END-SKIPS-OVERFLOW", 1, "every allocation from the unused end of the data area (allocFromArea on the data end marker) is preceded on every path by a raise of the data end marker to the meta end marker, or dominated by a comparison of the two markers: the pages between them belong to the overflow area in use")
 	v := newAllocVocab(p)
 	isMarkerLoadOf := func(x ssa.Value, area string) bool {
 		u, ok := stripConv(x).(*ssa.UnOp)
@@ -2005,7 +2017,34 @@ func ruleDATAENDSKIPSOVERFLOW(p *Program, rep *Report) {
 				}
 				n++
 				rep.Analysed(funcName(fn))
-				key := funcName(fn) + "|data-end-advance"
+				// the obligation is keyed by the allocator operation(s) through which the advance is reached
+				// (an unexported helper holding the advance is attributed to its callers), so that a finding
+				// recorded for an operation stays attached to it when the advance moves into a helper
+				var owners []string
+				var climb func(f *ssa.Function, depth int)
+				seenF := map[*ssa.Function]bool{}
+				climb = func(f *ssa.Function, depth int) {
+					if seenF[f] {
+						return
+					}
+					seenF[f] = true
+					for f.Parent() != nil {
+						f = f.Parent()
+					}
+					sites := p.callIndex().sites[f]
+					nm := f.Name()
+					if depth >= 3 || len(sites) == 0 || (nm != "" && nm[0] >= 'A' && nm[0] <= 'Z') {
+						owners = append(owners, funcName(f))
+						return
+					}
+					for _, s := range sites {
+						climb(s.Parent(), depth+1)
+					}
+				}
+				climb(fn, 0)
+				sort.Strings(owners)
+				owners = uniq(owners)
+				key := strings.Join(owners, "+") + "|data-end-advance"
 				// (a) a raise  data.endMarker = <meta.endMarker>  on every path before the call (block-granular)
 				raised := map[*ssa.BasicBlock]bool{}
 				sameBlockBefore := false
@@ -2083,9 +2122,16 @@ func ruleDATAENDSKIPSOVERFLOW(p *Program, rep *Report) {
 						return isCmp && ((isMarkerLoadOf(x, "data") && isMarkerLoadOf(y, "meta")) || (isMarkerLoadOf(x, "meta") && isMarkerLoadOf(y, "data")))
 					})
 				})
-				if okRaise || okCmp {
-					rep.OK("DATA-END-SKIPS-OVERFLOW", key, p.InstrPos(ins), "the meta end marker is taken into account before pages are taken from the end of the data area")
-				} else {
+				_ = key
+				for _, o := range owners {
+					k := o + "|data-end-advance"
+					if okRaise || okCmp {
+						rep.OK("DATA-END-SKIPS-OVERFLOW", k, p.InstrPos(ins), "the meta end marker is taken into account before pages are taken from the end of the data area")
+					} else {
+						rep.Bad("DATA-END-SKIPS-OVERFLOW", k, p.InstrPos(ins), badMsgDataEnd)
+					}
+				}
+				if false {
 					rep.Bad("DATA-END-SKIPS-OVERFLOW", key, p.InstrPos(ins), "pages are allocated from the unused end of the data area starting at the data end marker without regard to the meta end marker: when the overflow area is in use (meta end marker beyond the data end marker) and the size limit no longer separates the two — the maximum size was raised on open — live overwrite, mapping and free-list pages in [data end, meta end) are handed out as data pages and overwritten")
 				}
 			}
